@@ -147,6 +147,12 @@ func (s *listSys) Ops() []engine.Op {
 			ops = append(ops, listOp{"delete", k})
 		}
 	}
+	// the multi-object delete request is a second delete path through every backend
+	for _, k := range s.u.keys {
+		if s.live[k] {
+			ops = append(ops, listOp{"mdelete", k})
+		}
+	}
 	return ops
 }
 
@@ -158,6 +164,9 @@ func (s *listSys) Apply(op engine.Op) (string, *engine.Violation) {
 	if o.kind == "put" {
 		r = s.w.Do(drv.Req{Method: "PUT", Path: "/" + s.bucket + "/" + o.k, Body: listBody(o.k)})
 		s.live[o.k] = true
+	} else if o.kind == "mdelete" {
+		r = s.w.Do(drv.Req{Method: "POST", Path: "/" + s.bucket, Query: "delete", Body: multiDeleteBody([]string{o.k}, true)})
+		delete(s.live, o.k)
 	} else {
 		r = s.w.Do(drv.Req{Method: "DELETE", Path: "/" + s.bucket + "/" + o.k})
 		delete(s.live, o.k)
@@ -171,7 +180,7 @@ func (s *listSys) Apply(op engine.Op) (string, *engine.Violation) {
 }
 
 func (s *listSys) Key() string {
-	return drv.KeyOf(s.w.Snapshot(drv.SnapOpts{Versions: s.versioned || s.w.Cfg.Kind == drv.Mem}))
+	return drv.KeyOf(s.w.Snapshot(drv.SnapOpts{Versions: s.versioned || s.w.Cfg.Kind == drv.Mem}) + "MODEL " + strings.Join(s.liveKeys(), "\x00"))
 }
 
 func (s *listSys) delims() []string {
@@ -450,6 +459,15 @@ func seqEqual(ps pageSeq, exp []model.LEntry) bool {
 // walk follows the server's continuation from an optional start marker and
 // checks the C04 clauses. Returns the first violation and the request count.
 func (s *listSys) walk(base, d string, all []model.LEntry, mk int, v2, hasStart bool, start string, keys []string) (*engine.Violation, int64) {
+	v, n := s.walkSA(base, d, all, mk, v2, hasStart, start, keys, false)
+	if v == nil && v2 && hasStart && mk <= 2 {
+		v2v, n2 := s.walkSA(base, d, all, mk, v2, hasStart, start, keys, true)
+		return v2v, n + n2
+	}
+	return v, n
+}
+
+func (s *listSys) walkSA(base, d string, all []model.LEntry, mk int, v2, hasStart bool, start string, keys []string, keepSA bool) (*engine.Violation, int64) {
 	kind := string(s.w.Cfg.Kind)
 	// expected entries after the start marker; a common prefix whose group
 	// straddles the marker is optional (statement leaves it open)
@@ -478,6 +496,9 @@ func (s *listSys) walk(base, d string, all []model.LEntry, mk int, v2, hasStart 
 	if v2 {
 		api = "V2"
 	}
+	if keepSA {
+		api = "V2+start-after-kept"
+	}
 	var reqs int64
 	var trace []string
 	bad := func(field, msg string) *engine.Violation {
@@ -495,9 +516,11 @@ func (s *listSys) walk(base, d string, all []model.LEntry, mk int, v2, hasStart 
 		q := joinQ(base, "max-keys="+strconv.Itoa(mk))
 		if v2 {
 			q = joinQ(q, "list-type=2")
-			if first && hasStart {
+			if hasStart && (first || keepSA) {
+				// SDK paginators replay the original input and add the token
 				q = joinQ(q, drv.Q("start-after", start))
-			} else if !first {
+			}
+			if !first {
 				q = joinQ(q, drv.Q("continuation-token", cont))
 			}
 		} else {
